@@ -1,5 +1,6 @@
 import BoltonsVerif.C15.Proofs
 import BoltonsVerif.C15.RoundingCarrier
+import BoltonsVerif.C15.SessionProofs
 /-
 C15 — property theorems for the model of `backoff_iter` / `backoff`.
 
@@ -397,6 +398,114 @@ theorem validation_iff (p : Params Rat) (hc : p.count ≠ .dflt) (fuel : Nat) (r
 
 end Exact
 
+/-! ### sessions: several calls, the caller changing the lists it was handed, generators advanced
+in any interleaving.  Every clause above is about ONE call; these theorems say that a call made
+in the middle of any history is that one call: nothing a caller did before (other calls with
+equal or different arguments, changes to earlier results, other generators half consumed) can
+be seen in it, and nothing it does can be seen in the objects handed out earlier. -/
+section Session
+variable {α : Type} [LE α] [LT α] [DecidableLE α] [DecidableLT α] [BEq α] [LawfulBEq α]
+  [Std.IsLinearOrder α] [Std.LawfulOrderLT α]
+  [Mul α] [Sub α] [Neg α] [OfNat α 0] [OfNat α 1]
+
+/-- a call only appends one new object, and both that object and what the caller sees are a
+    function of the call's own arguments - whatever register file `s` earlier calls left -/
+theorem session_call_history_independent (fuel : Nat) (s : List (Obj α)) (p : Params α) (r : Nat → α) :
+    step fuel s (.callL p r) = (s ++ [listObj (backoff fuel r p)], listObs (backoff fuel r p)) ∧
+    step fuel s (.callI p r) = (s ++ [Obj.ofOutcome (backoffIter fuel r p)], .gen) := ⟨rfl, rfl⟩
+
+/-- `backoff` called after ANY history `pre` (and whatever follows) shows its caller the outcome
+    of that one call: all single-call theorems apply to it -/
+theorem session_list_call_obs (fuel : Nat) (s : List (Obj α)) (pre post : List (Op α))
+    (p : Params α) (r : Nat → α) :
+    (run fuel s (pre ++ .callL p r :: post))[pre.length]? = some (listObs (backoff fuel r p)) :=
+  run_at fuel pre post _ s
+
+/-- frame: an operation changes no object but the one it addresses (calls: none) -/
+theorem session_frame (fuel : Nat) (s : List (Obj α)) (op : Op α) (j : Nat) (hj : j < s.length)
+    (ht : op.target ≠ some j) : (step fuel s op).1[j]? = s[j]? := step_frame fuel s op j hj ht
+
+/-- an object is unchanged by any history that does not address it: other calls (also with the
+    same arguments), changes to other lists, other generators being advanced -/
+theorem session_untouched_object_stable (fuel : Nat) (ops : List (Op α)) (s : List (Obj α)) (j : Nat)
+    (hj : j < s.length) (h : ∀ op ∈ ops, op.target ≠ some j) : (runState fuel s ops)[j]? = s[j]? :=
+  runState_frame fuel ops s j hj h
+
+/-- the list a `backoff` call returned still holds that call's values when it is looked at after
+    any further history `mid` in which the caller did not touch it -/
+theorem session_list_stable (fuel : Nat) (s : List (Obj α)) (pre mid : List (Op α)) (p : Params α)
+    (r : Nat → α) (hmid : ∀ op ∈ mid, op.target ≠ some (runState fuel s pre).length) :
+    (run fuel s (pre ++ .callL p r :: (mid ++ [.read (runState fuel s pre).length]))).getLast?
+      = some (readObs (backoff fuel r p)) := by
+  have e : pre ++ .callL p r :: (mid ++ [.read (runState fuel s pre).length])
+      = (pre ++ .callL p r :: mid) ++ [.read (runState fuel s pre).length] := by simp
+  rw [e, run_last, runState_append]
+  simp only [runState, step]
+  have hfr := runState_frame fuel mid ((runState fuel s pre) ++ [listObj (backoff fuel r p)])
+    (runState fuel s pre).length (by simp) hmid
+  rw [List.getElem?_append_right (Nat.le_refl _)] at hfr
+  simp only [Nat.sub_self, List.getElem?_cons_zero] at hfr
+  unfold stepRead
+  rw [hfr]
+  cases backoff fuel r p <;> rfl
+
+/-- a generator made after any history `pre` and first advanced after any further history `mid`
+    that does not address it yields what a fresh generator of that one call yields -/
+theorem session_generator_stable (fuel : Nat) (s : List (Obj α)) (pre mid : List (Op α)) (p : Params α)
+    (r : Nat → α) (n : Nat) (hmid : ∀ op ∈ mid, op.target ≠ some (runState fuel s pre).length) :
+    (run fuel s (pre ++ .callI p r :: (mid ++ [.pull (runState fuel s pre).length n]))).getLast?
+      = some (pullObj (Obj.ofOutcome (backoffIter fuel r p)) n).2 := by
+  have e : pre ++ .callI p r :: (mid ++ [.pull (runState fuel s pre).length n])
+      = (pre ++ .callI p r :: mid) ++ [.pull (runState fuel s pre).length n] := by simp
+  rw [e, run_last, runState_append]
+  simp only [runState, step]
+  have hfr := runState_frame fuel mid ((runState fuel s pre) ++ [Obj.ofOutcome (backoffIter fuel r p)])
+    (runState fuel s pre).length (by simp) hmid
+  rw [List.getElem?_append_right (Nat.le_refl _)] at hfr
+  simp only [Nat.sub_self, List.getElem?_cons_zero] at hfr
+  unfold stepPull
+  rw [hfr]
+
+/-- advancing a generator `n` times, doing anything that does not address it, then advancing it
+    `m` times yields the values of advancing it `n + m` times at once: the interleaving with other
+    calls and other generators does not matter -/
+theorem session_pulls_compose (fuel : Nat) (s : List (Obj α)) (k n m : Nat) (o : Obj α) (mid : List (Op α))
+    (hk : s[k]? = some o) (hmid : ∀ op ∈ mid, op.target ≠ some k) :
+    (step fuel s (.pull k n)).2.values ++
+        (((run fuel s (.pull k n :: (mid ++ [.pull k m]))).getLast?.map Obs.values).getD [])
+      = (pullObj o (n + m)).2.values := by
+  have hklt : k < s.length := by
+    rcases Nat.lt_or_ge k s.length with h | h
+    · exact h
+    · rw [List.getElem?_eq_none h] at hk; cases hk
+  have e : Op.pull k n :: (mid ++ [.pull k m]) = (Op.pull k n :: mid) ++ [.pull k m] := by simp
+  rw [e, run_last]
+  simp only [runState, step]
+  have hs1 : (stepPull s k n) = (s.set k (pullObj o n).1, (pullObj o n).2) := by
+    unfold stepPull; rw [hk]
+  rw [hs1]
+  have hfr := runState_frame fuel mid (s.set k (pullObj o n).1) k (by simpa using hklt) hmid
+  rw [List.getElem?_set_self (by simpa using hklt)] at hfr
+  simp only [Option.map_some, Option.getD_some]
+  unfold stepPull
+  rw [hfr]
+  exact ((pullObj_split o n m).2).symm
+
+/-- the link to the single-call clauses: for valid parameters and an explicit count, the first `n`
+    advances of the generator give the (jittered) delays at positions `0 … min n count - 1`, and
+    StopIteration is seen exactly when `n` exceeds `count` -/
+theorem session_first_pull_values {p : Params α} (hp : ValidParams p) (hj : JitterOk p) (c : Int)
+    (hc0 : 0 ≤ c) (hc : p.count = .num c) (fuel : Nat) (r : Nat → α) (n : Nat) :
+    (pullObj (Obj.ofOutcome (backoffIter fuel r p)) n).2 =
+      .pulled ((List.range (min n c.toNat)).map (yieldAt r p)) (decide (c.toNat < n)) := by
+  have hk' : ¬ c < 0 := by omega
+  have hout : backoffIter fuel r p = .finite ((List.range c.toNat).map (yieldAt r p)) := by
+    simp [backoffIter, rangeBad_false hp, resolveCount, hc, hk', jitterBad_false hj, valsFrom_eq_map]
+  rw [hout]
+  simp [Obj.ofOutcome, pullObj, ← List.map_take, List.take_range]
+
+end Session
+
 /-! ### non-vacuity: concrete inputs satisfying the hypotheses, concrete runs of the model -/
 section Examples
 
@@ -444,6 +553,25 @@ example : (match backoff 10 (fun _ => 0)
 example : (match backoff 3 (fun _ => 0)
     ({ start := 1, stop := 10, factor := 2, count := .dflt, jitter := 0 } : Params Rat) with
     | .fuelOut => true | _ => false) = true := by decide +kernel
+
+-- a session: the caller uses up the first result of backoff(1, 10); the second call with the very
+-- same arguments is complete again, and a third result is untouched by changes to the second
+example : ((run 10 [] [
+      .callL ({ start := 1, stop := 10, factor := 2, count := .dflt, jitter := 0 } : Params Rat) (fun _ => 0),
+      .chg 0 .pop0, .chg 0 .pop0, .chg 0 (.set0 (-1)), .read 0,
+      .callL { start := 1, stop := 10, factor := 2, count := .dflt, jitter := 0 } (fun _ => 0),
+      .callL { start := 1, stop := 10, factor := 2, count := .dflt, jitter := 0 } (fun _ => 0),
+      .chg 1 .clear, .read 2]).map Obs.values)
+    = [[1, 2, 4, 8, 10], [], [], [], [-1, 8, 10], [1, 2, 4, 8, 10], [1, 2, 4, 8, 10], [], [1, 2, 4, 8, 10]] := by
+  decide +kernel
+-- two generators of the same call advanced alternately, one of an invalid call in between
+example : ((run 10 [] [
+      .callI ({ start := 1, stop := 10, factor := 2, count := .num 6, jitter := 0 } : Params Rat) (fun _ => 0),
+      .callI { start := 1, stop := 10, factor := 2, count := .num 6, jitter := 0 } (fun _ => 0),
+      .callI { start := 1, stop := 0, factor := 2, count := .rep, jitter := 0 } (fun _ => 0),
+      .pull 0 2, .pull 1 1, .pull 2 1, .pull 0 3, .pull 2 1, .pull 1 9, .pull 0 4]).map Obs.values)
+    = [[], [], [], [1, 2], [1], [], [4, 8, 10], [], [2, 4, 8, 10, 10], [10]] := by
+  decide +kernel
 
 end Examples
 
